@@ -704,6 +704,99 @@ def check_mulword(res, facts, tier):
             rule.undecided(key, verdict[1], fn.loc)
 
 
+def _loop_models(wm):
+    """models that let the word engine run the `unroll_for_loops` expansions with a concrete limb count"""
+    def _into_iter(ex_, st, fr, t, a):
+        return a[0]
+
+    def _next(ex_, st, fr, t, a):
+        r = ex_.deref(a[0])
+        if isinstance(r, SX.Obj) and set(r.fields) >= {0, 1} and isinstance(r.fields[0], int) and isinstance(r.fields[1], int):
+            s0, e0 = r.fields[0], r.fields[1]
+            if s0 < e0:
+                r.fields[0] = s0 + 1
+                return SX.some(s0)
+            return SX.none()
+        return NotImplemented
+
+    def _checked_sub(ex_, st, fr, t, a):
+        x, y = ex_.deref(a[0]), ex_.deref(a[1])
+        if isinstance(x, int) and isinstance(y, int) and not isinstance(x, bool):
+            return SX.some(x - y) if x >= y else SX.none()
+        return NotImplemented
+
+    def _unwrap_or(ex_, st, fr, t, a):
+        o = ex_.deref(a[0])
+        if isinstance(o, SX.Obj) and o.variant == "Some":
+            return o.fields[0]
+        if isinstance(o, SX.Obj) and o.variant == "None":
+            return ex_.deref(a[1])
+        return NotImplemented
+    wm.on(SX.by(None, "into_iter"), _into_iter)
+    wm.on(SX.by(None, "next"), _next)
+    wm.on(SX.by(None, "checked_sub"), _checked_sub)
+    wm.on(SX.by(None, "unwrap_or"), _unwrap_or)
+    return wm
+
+
+def check_addword(res, facts, tier):
+    """BigInt::add_with_carry / sub_with_borrow: out + carry * 2^(64N) = a + b resp. out - borrow * 2^(64N) = a - b, with the
+    returned flag being exactly that carry / borrow, for all limb contents (N = 1..4): word-level identity."""
+    rule = res.rule("R-ADDWORD", "BigInt::add_with_carry / sub_with_borrow equal integer addition / subtraction with the returned flag as the lost carry / borrow [word-level identity, N = 1..4]", 2)
+    BIG = "ark_ff::biginteger::BigInt"
+    ns = (1, 2, 3, 4, 6) if tier == "thorough" else (1, 2, 3, 4)
+    for name, sign in (("add_with_carry", 1), ("sub_with_borrow", -1)):
+        fs = [f for f in facts.fns(unit="ws", crate="ark_ff") if f.kind != "Closure" and f.name == name and f.self_head == BIG and (f.trait_impl or "").endswith("BigInteger")]
+        key = "ark_ff|BigInt::%s" % name
+        if not fs:
+            rule.bad(key, "anchor missing")
+            continue
+        fn = fs[0]
+        verdict = None
+        for N in ns:
+            ex = WordEngine(facts, "ws", _loop_models(word_models()), env={"N": N}, max_paths=20, max_depth=6, inline_limit=400, max_visits=4 * N + 12)
+
+            def big(pfx):
+                return SX.Obj(adt="BigInt", fields={0: SX.Obj(adt="array", fields={i: Q.var("%s%d" % (pfx, i)) for i in range(N)})})
+            ca = SX.Cell(big("a"))
+            try:
+                paths = [p_ for p_ in ex.run(fn, [SX.Ref(ca), SX.Ref(SX.Cell(big("b")))]) if "panic" not in p_.flags]
+            except Exception as e:
+                verdict = ("undecided", "N = %d: evaluation failed: %s" % (N, str(e)[:80]))
+                break
+            if len(paths) != 1 or paths[0].flags:
+                verdict = ("undecided", "N = %d: not a single straight evaluation (%d paths, flags %s)" % (N, len(paths), sorted(paths[0].flags)[:4] if paths else []))
+                break
+            try:
+                arr = ex.deref(ex.deref(ca.v).fields[0])
+                out = [SX.q_of(ex.deref(arr.fields[i])) for i in range(N)]
+            except Exception as e:
+                verdict = ("undecided", "N = %d: result limbs not found (%s)" % (N, str(e)[:60]))
+                break
+            r = paths[0].ret
+            flag = None
+            if isinstance(r, SX.Cond) and r.kind == "eq" and isinstance(r.a, Q) and isinstance(r.b, Q) and r.b.is_zero():
+                flag = r.a if r.neg else (Q.const(1) - r.a)       # `hi != 0` resp. `hi == 0` with hi in {0, 1}
+            elif isinstance(r, bool):
+                flag = Q.const(int(r))
+            if flag is None or any(x is None for x in out):
+                verdict = ("undecided", "N = %d: the returned flag / limbs are not word expressions (%s)" % (N, str(r)[:60]))
+                break
+            A_ = sum((Q.var("a%d" % i) * Q.const(W ** i) for i in range(N)), Q.const(0))
+            B_ = sum((Q.var("b%d" % i) * Q.const(W ** i) for i in range(N)), Q.const(0))
+            R_ = sum((x * Q.const(W ** k) for k, x in enumerate(out)), Q.const(0))
+            d = ex.reduce(R_ + Q.const(sign) * flag * Q.const(W ** N) - (A_ + Q.const(sign) * B_))
+            if not d.is_zero():
+                verdict = ("violation", "N = %d: out %s flag*2^(64N) - (a %s b) reduces to %s, not 0: limbs or the returned %s are wrong for some operands" % (N, "+" if sign > 0 else "-", "+" if sign > 0 else "-", str(d)[:120], "carry" if sign > 0 else "borrow"))
+                break
+        if verdict is None:
+            rule.ok(key, "out %s flag * 2^(64N) = a %s b for all limb contents, N in %s" % ("+" if sign > 0 else "-", "+" if sign > 0 else "-", list(ns)), fn.loc)
+        elif verdict[0] == "violation":
+            rule.bad(key, verdict[1], fn.loc)
+        else:
+            rule.undecided(key, verdict[1], fn.loc)
+
+
 def check_mulhigh(res, facts):
     """mul_high has no algorithm of its own: it is the high half of `mul` on every path.  A shortcut (e.g. `return zero`
     when the bit lengths add up to at most 64N + 1) makes it disagree with mul().1 on the boundary."""
@@ -790,6 +883,7 @@ def run(ctx, res):
     check_digitrange(res, facts)
     check_mulhigh(res, facts)
     check_mulword(res, facts, ctx.tier)
+    check_addword(res, facts, ctx.tier)
     check_shifts(res, facts, ctx.tier)
     check_bitconv(res, facts, ctx.tier)
     return {
